@@ -454,11 +454,23 @@ def run_property(spec, tier, seed=0, jobs=4):
         test = None
         if r.unit.engine == 'kani' and os.environ.get('VERIF_NO_PLAYBACK') != '1':
             test = kani_playback_print(r.unit)
+        witness = None
+        if r.unit.engine == 'verus' and getattr(spec, 'WITNESS_CMD', None):
+            # fixed witness inputs run against the real code: a concrete failing input if one of them fails
+            try:
+                wp = subprocess.run(spec.WITNESS_CMD, stdout=subprocess.PIPE, stderr=subprocess.STDOUT, text=True, timeout=1800)
+                if wp.returncode == 1:
+                    witness = wp.stdout[-2000:]
+                    test = 'witness: ' + ' '.join(spec.WITNESS_CMD)
+            except Exception:
+                pass
         json.dump({
             'property': pid, 'engine': r.unit.engine, 'unit': r.unit.name,
             'crate': getattr(r.unit, 'crate', None), 'features': getattr(r.unit, 'features', None),
             'failed_obligations': r.failed, 'reason': r.reason,
             'concrete_playback_test': test,
+            'witness_output': witness,
+            'witness_cmd': getattr(spec, 'WITNESS_CMD', None),
             'stubs': getattr(r.unit, 'stubs', []),
             'verifier_output_tail': r.raw_tail,
             'cmd': r.extra.get('cmd'),
